@@ -187,6 +187,9 @@ class Check:
         for fid, (f, n) in sorted(reported_known.items()):
             print("KNOWN-FINDING: property=%s %s [%s; %d occurrence(s) this run]" % (self.prop, f["what"], fid, n))
         os.makedirs(os.path.join(REPLAY_DIR, self.prop), exist_ok=True)
+        for stale in os.listdir(os.path.join(REPLAY_DIR, self.prop)):  # the directory reflects the LAST run only
+            if stale.endswith(".json"):
+                os.remove(os.path.join(REPLAY_DIR, self.prop, stale))
         for key, v in sorted(new.items()):
             payload = {
                 "property": self.prop,
@@ -249,11 +252,48 @@ def write_evidence(evidence):
 # check between independent sub-explorations.
 
 
+def serialise_numba_cache():
+    """numba's on-disk cache is not safe against several processes compiling the same
+    function at the same time (seen: FileNotFoundError from a worker while another one was
+    replacing the index file, after /repo had changed and the cache was stale).  All checks
+    share NUMBA_CACHE_DIR, so loads and saves are serialised with an flock."""
+    cache_dir = os.environ.get("NUMBA_CACHE_DIR")
+    if not cache_dir:
+        return
+    try:
+        import fcntl
+
+        import numba.core.caching as nc
+    except Exception:  # pragma: no cover
+        return
+    if getattr(nc.Cache, "_verif_locked", False):
+        return
+    os.makedirs(cache_dir, exist_ok=True)
+    lockpath = os.path.join(cache_dir, ".verif.lock")
+
+    def locked(fn):
+        def wrapper(*a, **k):
+            with open(lockpath, "a") as fh:
+                fcntl.flock(fh, fcntl.LOCK_EX)
+                try:
+                    return fn(*a, **k)
+                finally:
+                    fcntl.flock(fh, fcntl.LOCK_UN)
+
+        wrapper.__name__ = getattr(fn, "__name__", "wrapper")
+        return wrapper
+
+    nc.Cache.load_overload = locked(nc.Cache.load_overload)
+    nc.Cache.save_overload = locked(nc.Cache.save_overload)
+    nc.Cache._verif_locked = True
+
+
 def _worker_init(builddir, extra_env):
     os.environ.update(extra_env)
     sys.path.insert(0, VERIF)
     from mc import build
 
+    serialise_numba_cache()
     build.install_native(builddir)
 
 
